@@ -31,6 +31,9 @@ FIXED = [
     # before the fix the blocked session never drained its 8-slot command queue: the 9th decode-level command
     # blocked ServerTask::apply_command, i.e. the accept loop - no further connection served, no shutdown possible
     (2, 'C W0 D D D D D D D D D D C R1:5 S'),
+    # B<k>: a request whose application handler is parked on a gate, U: release. Level changes while a session
+    # is inside a transaction must neither drop that session nor lose its outstanding or later requests
+    (2, 'C B0 D D D D D D D D D D U R0:5'), (2, 'C C B0 R1:3 D D U R0:4 C'), (1, 'C B0 D D D D D D D D D D D D U R0:7 C'),
 ]
 
 
@@ -156,6 +159,10 @@ def to_coq(c):
             out.append(f'Req {k} {v}')
         elif code == 'W':
             out.append(f'Flood {rest}')
+        elif code == 'B':
+            out.append(f'Park {rest}')
+        elif code == 'U':
+            out.append('Release')
         elif code == 'D':
             out.append('SetDecode')
         elif code == 'S':
@@ -197,6 +204,8 @@ def classify(c, impl, spec):
             return 'wrong-session-evicted'
         if op == 'C' and len(iset) < len(sset):
             return 'session-closed-below-limit'
+        if op[0] in 'DUB' and len(iset) < len(sset):
+            return 'session-closed-by-level-change'
         if iset != sset and op[0] in 'XGRD':
             return 'session-disturbed-by-other' if len(iset) < len(sset) else 'ended-session-still-served'
         if iv != sv:
@@ -272,6 +281,7 @@ def run(ctx):
         ctx.coverage['exhaustive_scripts_of_length_5'] = exhaustive_part
     if not WRITE_STALL_OPS:
         cases = [c for c in cases if 'W' not in c[1]]
+    classes_parked = len([c for c in cases if 'B' in c[1]])
     impl, both = evaluate(ctx, cases)
     # an op W that did not reach the blocked state makes its scenario inconclusive: one more try, then it is left out
     for _ in range(2):
@@ -286,6 +296,7 @@ def run(ctx):
         keep = [k for k in range(len(cases)) if k not in set(inconclusive)]
         cases, impl, both = [cases[k] for k in keep], [impl[k] for k in keep], [both[k] for k in keep]
     ctx.coverage['inconclusive_flood_scenarios'] = len(inconclusive)
+    ctx.coverage['scenarios_with_parked_handler'] = classes_parked
     suspects = [k for k, (i, b) in enumerate(zip(impl, both)) if i != b.split('#')[0] or i != b.split('#')[1]]
     retried = len(suspects)
     rechecked_detail = [[list(cases[k][:3]), impl[k], both[k].split('#')[1]] for k in suspects[:6]]
@@ -355,7 +366,7 @@ def run(ctx):
     ctx.coverage.update({
         'evaluations': len(cases),
         'distinct_nontrivial': len(set(c for c, b in zip(cases, both) if c[1].count('C') + c[1].count('T') >= 2 and len(c[1].split()) >= 3)),
-        'rule': 'scenario = (plain TCP server or TLS server [C = rodbus TLS client channel, T = peer that connects and never starts the handshake], max_sessions in 0..3, script over C=connect T=silent connect X<k>=client k closes G<k>=garbage on k R<k>:<v>=write v on k W<k>=client k pipelines requests and never reads (session blocked in a reply write) D=set decode level S=shutdown H=drop handle), <= 6 connections, <= 13 ops, from a seeded PRNG after a fixed list; every op is followed by a probe of all connections; non-trivial = at least two connects and three ops; distinct by value',
+        'rule': 'scenario = (plain TCP server or TLS server [C = rodbus TLS client channel, T = peer that connects and never starts the handshake], max_sessions in 0..3, script over C=connect T=silent connect X<k>=client k closes G<k>=garbage on k R<k>:<v>=write v on k W<k>=client k pipelines requests and never reads (session blocked in a reply write) B<k>=request whose application handler parks on a gate U=release the gate D=set decode level S=shutdown H=drop handle), <= 6 connections, <= 13 ops, from a seeded PRNG after a fixed list; every op is followed by a probe of all connections; non-trivial = at least two connects and three ops; distinct by value',
         'samples': [list(c) + [i] for c, i in list(zip(cases, impl))[:5]],
         'input_classes': classes,
         'probes': sum(len(c[1].split()) for c in cases),
